@@ -24,7 +24,8 @@ TRUSTED = [
 ]
 ASSUMPTIONS = [
     "leaf counts < 2^63; arithmetic overflow is modelled as a panic (checked build), a release build would wrap (only for counts >= 2^63)",
-    "mutations are carried out with valid membership proofs (as the property says); with invalid proofs only model = implementation is checked",
+    "mutations are carried out with valid membership proofs (as the property says) = the authentication path of the specification; with invalid proofs only model = implementation is checked",
+    "history_commits, verify_batch_update_iff, rejects_dup_oob and bag_peaks_spec are proved in general (props/C11.v); the digest equality test deq is assumed to decide equality (derived PartialEq on Digest)",
 ]
 RULE = ("operation histories (append / mutate / batch-mutate / verify_batch_update with negative tweaks) of 1..300 (quick) or "
         "..3000 (thorough) operations with leaf counts steered through 2^k-1 -> 2^k; new_from_leafs for every count; "
@@ -58,7 +59,7 @@ def cases(tier, rng):
         out.append(("new_from_leafs", "nfl %d" % n))
     for line in vbu_grid(rng, list(range(0, 18)) + [31, 32, 33, 63, 64, 65] + ([127, 128, 255, 256, 257] if big else [])):
         out.append(("verify_batch_update-grid", line))
-    nh = 400 if big else 70
+    nh = 400 if big else 130
     for k in range(nh):
         nops = rng.choice((1, 2, 3, 5, 8, 13, 24, 25, 40, 80, 150, 300))
         out.append(("history-random", mc.random_history(rng, nops, steer=False, track_bias=0.04)))
